@@ -20,19 +20,28 @@ open CrCube
 /-- a value the response marks unavailable decodes to NaN, whatever its reason code -/
 theorem unavailable_decodes_nan (code : Int) : (PCell.unavail code).decode = .nan := rfl
 
+/-- a value carried as JSON `null` (Python `None`) decodes to NaN as well: the flat array is built
+    with `dtype=np.float64`, which turns `None` into NaN -/
+theorem null_decodes_nan : PCell.null.decode = .nan := rfl
+
+/-- nothing else decodes to NaN: a cell is NaN exactly when it is a `{"?": …}` marker or `null` -/
+theorem decode_nan_iff (c : PCell) : c.decode = .nan ↔ (∃ code, c = .unavail code) ∨ c = .null := by
+  cases c <;> simp [PCell.decode]
+
 /-- a number decodes to itself (in particular 0 stays 0 and is not confused with "unavailable") -/
 theorem number_decodes_itself (q : Rat) : (PCell.num q).decode = .fin q := rfl
 
 /-- `_flat_values` decodes entry by entry: position k of the flat array is NaN exactly when the
-    payload entry k is a `{"?": …}` object -/
+    payload entry k is a `{"?": …}` object or `null` -/
 theorem flat_values_entrywise (data : List PCell) (k : Nat) (hk : k < data.length) :
     ∃ l, flatNumeric (some data) = some l ∧ l[k]? = some (data[k]).decode ∧
-      (l[k]? = some .nan ↔ ∃ c, data[k] = .unavail c) := by
+      (l[k]? = some .nan ↔ (∃ c, data[k] = .unavail c) ∨ data[k] = .null) := by
   refine ⟨data.map PCell.decode, rfl, by simp [List.getElem?_map, List.getElem?_eq_getElem hk], ?_⟩
   simp only [List.getElem?_map, List.getElem?_eq_getElem hk, Option.map_some, Option.some.injEq]
   cases h : data[k] with
   | num q => simp [PCell.decode]
   | unavail c => simp [PCell.decode]
+  | null => simp [PCell.decode]
 
 /-! ### which plane of a multiple-response axis (all nine type pairs) -/
 
@@ -119,6 +128,15 @@ theorem numeric_flat_reports_cell_3d (T R C : Var) (hT : T.CM) (hR : R.CM) (hC :
 theorem unavailable_surfaces_as_nan_2d (R C : Var) (hR : R.CM) (hC : C.CM) (wR : R.WF) (wC : C.WF)
     (g : List Nat → PCell) (i j : Nat) (hi : i < R.ext) (hj : j < C.ext) (code : Int)
     (hg : g (R.msub i ++ C.msub j) = .unavail code) :
+    (rawArray (NDesign.mk [R, C] none).shape
+        (flatNumeric (some (backendFlat [R, C] none g)))).map
+      (fun raw => (NDesign.mk [R, C] none).sliceNumeric raw 0 i j) = some .nan := by
+  rw [numeric_flat_reports_cell_2d R C hR hC wR wC g i j hi hj, hg]; rfl
+
+/-- … and so does a cell carried as JSON `null` -/
+theorem null_surfaces_as_nan_2d (R C : Var) (hR : R.CM) (hC : C.CM) (wR : R.WF) (wC : C.WF)
+    (g : List Nat → PCell) (i j : Nat) (hi : i < R.ext) (hj : j < C.ext)
+    (hg : g (R.msub i ++ C.msub j) = .null) :
     (rawArray (NDesign.mk [R, C] none).shape
         (flatNumeric (some (backendFlat [R, C] none g)))).map
       (fun raw => (NDesign.mk [R, C] none).sliceNumeric raw 0 i j) = some .nan := by
